@@ -924,7 +924,7 @@ void run(vf::Tape& t, vf::Ctx& ctx) {
   trace(ctx, printed);
   std::unique_ptr<D> A(new D(ctx, "A", explicit_ids)), F;
   A->rows_are_positions = rows_pos;
-  if (A->need_cmp) A->cmp_documented = !ctx.excluded("C06-chain-comparator-index");
+  if (A->need_cmp) A->cmp_documented = false;  // since fix 5a1d2709b the documentation states MatIdx, which is what the code passes
   A->build(md, how, reserve);
   RefState rs = reference(md);
   A->check_full(md, rs, "after construction");
@@ -1217,7 +1217,7 @@ void run(vf::Tape& t, vf::Ctx& ctx) {
       trace(ctx, printed);
       F.reset(new D(ctx, "F", false));
       F->rows_are_positions = rows_pos;
-      if (F->need_cmp) F->cmp_documented = !ctx.excluded("C06-chain-comparator-index");
+      if (F->need_cmp) F->cmp_documented = false;
       F->build(md, how2, reserve2);
       F->check_full(md, rs, when.str() + " (fresh)");
       ctx.hit("fresh");
